@@ -433,6 +433,13 @@ pub fn checked_build(ctx: &Ctx, spec: &NodeSpec) -> BuildObs {
     let run = run_node(ctx.world, ctx.bins, spec);
     canon_memo.borrow_mut().clear();
     let mut failures = Vec::new();
+    // The generator process may die on its own (stack overflow on a pathological grammar: SIGABRT /
+    // SIGSEGV).  That is a failed build of the call that was running; calls after it never started.
+    let died_at: Option<usize> = match run.signal {
+        Some(sig) if sig != 9 => Some(if matches!(spec.kind, NodeKind::Cli { .. }) { 0 } else { run.results.len() }),
+        _ => None,
+    };
+    let unreached = |call: usize| died_at.map(|d| call > d).unwrap_or(false);
 
     let is_cli = matches!(spec.kind, NodeKind::Cli { .. });
     let entry_names: Vec<String> = match &resolved.kind {
@@ -467,7 +474,10 @@ pub fn checked_build(ctx: &Ctx, spec: &NodeSpec) -> BuildObs {
     for (ei, e) in exps.iter().enumerate() {
         let nfail_before = failures.len();
         let superseded = last_for_out.get(&canon_rel(&root, &e.planned.out_rel)).map(|l| *l != ei).unwrap_or(false);
-        let judged = !call_first_failure_seen.contains(&e.call) && !superseded;
+        let judged = !call_first_failure_seen.contains(&e.call) && !superseded && !unreached(e.call);
+        if unreached(e.call) {
+            after_first_failure.insert(e.planned.spelled.clone());
+        }
         if !judged {
             after_first_failure.insert(e.planned.spelled.clone());
         }
@@ -616,13 +626,17 @@ pub fn checked_build(ctx: &Ctx, spec: &NodeSpec) -> BuildObs {
             .map(|(o, e)| format!("{}/{}", e.tclass, o.pre.name()))
             .unwrap_or_else(|| "-".to_string())
     };
-    match run.verdict() {
+    let verdict = if died_at.is_some() { Ok(false) } else { run.verdict() };
+    match verdict {
         Err(e) => {
             let where_ = e.rsplit(" @ ").next().map(|l| l.split(':').next().unwrap_or("").rsplit('/').next().unwrap_or("").to_string()).unwrap_or_default();
             failures.push(fail("no-panic", "", e.clone(), &[("where", where_)]))
         }
         Ok(_) => {
             for (ci, want_fail) in call_should_fail.iter().enumerate() {
+                if unreached(ci) {
+                    continue;
+                }
                 let got = if is_cli { run.results.first() } else { run.results.get(ci) };
                 let got_fail = got.map(|r| r.status != "ok").unwrap_or(true);
                 if *want_fail != got_fail {
